@@ -128,8 +128,17 @@ def check_trim(rng, w, kind):
     samples = np.arange(n)
     if rng.random() < 0.3:
         samples = np.stack([np.arange(n), -np.arange(n)], axis=1).astype(float)
+    # call forms: keywords, positional, or the defaults (ess=0.99, bins=1000) left out
+    form = str(rng.choice(["kw", "kw", "pos", "defaults"]))
+    if form == "defaults":
+        frac, bins = 0.99, 1000
     try:
-        s_out, w_out = trim_weights(samples, w.copy(), ess=frac, bins=bins)      # (normalises its weight argument in place: a copy is handed over)
+        if form == "defaults":
+            s_out, w_out = trim_weights(samples, w.copy())
+        elif form == "pos":
+            s_out, w_out = trim_weights(samples, w.copy(), frac, bins)
+        else:
+            s_out, w_out = trim_weights(samples, w.copy(), ess=frac, bins=bins)      # (normalises its weight argument in place: a copy is handed over)
     except Exception as e:
         return [(f"trim-exception-{type(e).__name__}", f"trim_weights raised {e} (n={n}, ess={frac}, bins={bins}, kind={kind})")], frac, bins
     w_in = w.copy()
